@@ -94,8 +94,10 @@ func (t *tracer) run(ctx context.Context) {
 				// and truncating the list of subscribers
 				t.subscribers = t.subscribers[:l]
 				// (as we don't care about the order)
-				unsch.ok <- struct{}{}
 			}
+			// acknowledged whether or not the channel was (still) subscribed: a second
+			// Unsubscribe of the same channel used to ask again and again, for ever
+			unsch.ok <- struct{}{}
 		case trace := <-t.traces:
 			for _, subscriber := range t.subscribers {
 				subscriber <- trace
